@@ -126,6 +126,12 @@ def ghost_set(name, value):
     return True
 
 
+def event_log():
+    """ghost event log: one entry per call of a function whose contract declares `log_entry`, in call
+    order (symbolically: recorded where the contract is applied; natively: recorded by a wrapper)"""
+    return _GHOST.setdefault("log", [])
+
+
 def seq_uncons(s):
     """(first element, rest) of a non-empty sequence; the proof must show it is non-empty"""
     return s[0], s[1:]
